@@ -101,8 +101,8 @@ const POSITIONS: [Position; 62] = [
     p("qubit-variable-pulse", "PULSE {} \"f\" w", false, 1),
     p("qubit-variable-set-phase", "SET-PHASE {} \"f\" 1.0", false, 1),
     p("qubit-variable-delay", "DELAY {} 1.0", false, 1),
-    p("qubit-variable-delay-grouped", "DELAY {} (2*pi)", false, 1),
-    p("qubit-variable-delay-two", "DELAY 0 {} (1+2)", false, 1),
+    p("qubit-variable-delay-grouped", "DELAY {} (2*pi)", true, 1),
+    p("qubit-variable-delay-two", "DELAY 0 {} (1+2)", true, 1),
     p("qubit-variable-delay-frames", "DELAY {} \"f\" 2*pi", false, 1),
 ];
 
